@@ -1028,6 +1028,13 @@ fn post_mutate(rng: &mut Rng, m: &mut GenModel, lim: &GenLimits) {
     }
     if m.sense != Sense::Satisfy && rng.chance(1, 4) {
         m.offset = dyadic(rng, -9, 9, lim);
+        // sometimes a constant that dwarfs the variable part (a fixed cost, a baseline):
+        // any tolerance that is relative to the objective value then spans whole units of
+        // the part that is being optimised
+        if !lim.integer_data && rng.chance(1, 4) {
+            let big = *rng.pick(&[100_000.0, 1_000_000.0, 10_000_000.0]);
+            m.offset = if rng.chance(1, 2) { big } else { -big } + m.offset.trunc();
+        }
     }
     // row names: most rows named, some not
     let style = rng.below(3);
